@@ -8,7 +8,9 @@ import (
 	crand "crypto/rand"
 	"fmt"
 	"math/big"
+	"reflect"
 	"testing"
+	"unsafe"
 
 	pubsub "github.com/libp2p/go-libp2p-pubsub"
 	pubsubpb "github.com/libp2p/go-libp2p-pubsub/pb"
@@ -180,14 +182,30 @@ func TestVerif_C18_PubsubRelay(t *testing.T) {
 	verifkit.Parallel(streams, 0, func(si int) {
 		rng := r.SubRand("pubsub", si)
 		raw := make(chan net.Message, 16)
-		ch := &channel{
-			name:               topic,
-			clientIdentity:     &identity{id: local.id, pubKey: local.pub},
-			messageHandlers:    []*messageHandler{{ctx: context.Background(), channel: raw}},
-			unmarshalersByType: make(map[string]func() net.TaggedUnmarshaler),
-		}
+		ch := c18psInitUnmarshalers(&channel{
+			name:            topic,
+			clientIdentity:  &identity{id: local.id, pubKey: local.pub},
+			messageHandlers: []*messageHandler{{ctx: context.Background(), channel: raw}},
+		})
 		ch.SetUnmarshaler(func() net.TaggedUnmarshaler { return &c18psPayload{} })
 		var seq uint64
+		type kept struct {
+			m       net.Message
+			payload []byte
+			author  string
+			desc    string
+		}
+		var keptMsgs []kept
+		defer func() {
+			for _, km := range keptMsgs {
+				p, ok := km.m.Payload().(*c18psPayload)
+				if !ok || !bytes.Equal(p.data, km.payload) || km.m.TransportSenderID() == nil || km.m.TransportSenderID().String() != km.author {
+					r.Violation("pubsub:delivered-content-changed-later", "payload or author of a message already delivered changed after later pubsub messages (delivered and dropped ones) were processed", km.desc, nil)
+					break
+				}
+			}
+			r.Count("delivered_messages_rechecked_at_end", int64(len(keptMsgs)))
+		}()
 		for k := 0; k < per; k++ {
 			seq++
 			a := honest[rng.Intn(len(honest))]
@@ -432,6 +450,9 @@ func TestVerif_C18_PubsubRelay(t *testing.T) {
 				for _, p := range problems {
 					r.Violation("pubsub:wrong-content", p, desc, wit)
 				}
+				if len(problems) == 0 && len(keptMsgs) < 64 {
+					keptMsgs = append(keptMsgs, kept{x, append([]byte(nil), env.Payload...), author.String(), desc})
+				}
 			}
 			if si == 0 && (k == 2 || k == 11 || k == 29) {
 				c2 := c
@@ -440,4 +461,16 @@ func TestVerif_C18_PubsubRelay(t *testing.T) {
 			}
 		}
 	})
+}
+
+// c18psInitUnmarshalers gives the channel an empty unmarshaler registry
+// whatever the registry's concrete map type is (so the monitor keeps
+// compiling when that representation changes).
+func c18psInitUnmarshalers(c *channel) *channel {
+	f := reflect.ValueOf(c).Elem().FieldByName("unmarshalersByType")
+	if !f.IsValid() || f.Kind() != reflect.Map {
+		panic("verif: channel has no unmarshalersByType map")
+	}
+	reflect.NewAt(f.Type(), unsafe.Pointer(f.UnsafeAddr())).Elem().Set(reflect.MakeMap(f.Type()))
+	return c
 }
